@@ -10,7 +10,8 @@ def impl_parse3(arg): return parse_all_modes(S(arg[0]))
 def impl_low(arg): return lowlevel_in_mode(arg[0], S(arg[1]))
 def impl_confine(arg):
     a, bad, c = S(arg[0]), S(arg[1]), S(arg[2])
-    return [parse_in_mode(2, a + bad + c), parse_in_mode(2, a + c), parse_in_mode(2, a)]
+    return [parse_in_mode(2, a + bad + c), parse_in_mode(2, a + c), parse_in_mode(2, a),
+            parse_in_mode(1, a + bad + c), parse_in_mode(1, a), parse_in_mode(0, a + bad + c)]
 def impl_parse_capture(arg): return parse_in_mode(2, S(arg[0]))
 
 FUNCS = {
@@ -116,6 +117,20 @@ def corruption_cases(tier, rng):
                 for name, m in muts:
                     yield ('corruption', 8, [before, sep.join(m), after])
             yield ('corruption', 8, [before, sep.join(toks), after])
+            # data-level malformations: the key of an earlier / later entry (same and other letter case),
+            # the whole entry written twice, a field name repeated (same and other letter case)
+            if 'k2' in toks:
+                ki = toks.index('k2')
+                for k in ('k1', 'K1', 'k3', 'K3', 'k4', 'K2'):
+                    yield ('corruption_data', 8, [before, sep.join(toks[:ki] + [k] + toks[ki + 1:]), after])
+                    yield ('corruption_data', 8, [before, sep.join(toks[:ki] + [k] + toks[ki + 1:]) + '\n' + sep.join(toks), after])
+                yield ('corruption_data', 8, [before, sep.join(toks) + sep + sep.join(toks), after])
+                yield ('corruption_data', 8, [before, sep.join(toks) + '\n' + sep.join(toks[:ki] + ['K2'] + toks[ki + 1:]), after])
+            eqs = [j for j, t in enumerate(toks) if t == '=' and j > 0]
+            if len(eqs) >= 2 and toks[0] == '@' and toks[1] not in ('string', 'preamble', 'comment'):
+                first = toks[eqs[0] - 1]
+                for name in (first, first.upper(), first.capitalize()):
+                    yield ('corruption_data', 8, [before, sep.join(toks[:eqs[1] - 1] + [name] + toks[eqs[1]:]), after])
     # random contexts
     for _ in range(200 if tier == 'quick' else 4000):
         toks = list(rng.choice(base_files()))
@@ -285,16 +300,25 @@ def oracle(fn, arg, out):
             return 'a non-pybtex exception escaped the reader'
         return None
     if fn == 8:
-        full, ac, a = out
-        for r in out:
+        full, ac, a, full_ns, a_ns, full_st = out
+        for r in (full, ac, a, full_ns, a_ns):
             if r[0] != 0:
-                return 'the reader did not finish in capture mode (%s)' % ('foreign exception' if r[0] == 2 else 'error escaped')
+                return 'the reader did not finish in capture / non-strict mode (%s)' % ('foreign exception' if r[0] == 2 else 'error escaped')
+        if full_st[0] == 2:
+            return 'a non-pybtex exception escaped the reader in strict mode'
         A, bad, C = S(arg[0]), S(arg[1]), S(arg[2])
         ea, eac, ef = strip_dirty(a[1][0]), strip_dirty(ac[1][0]), strip_dirty(full[1][0])
-        if ef[:len(ea)] != ea:
-            return 'a malformed entry altered the entries read before it'
-        if [p[1] for p in full[1][1]][:len(a[1][1])] != [p[1] for p in a[1][1]]:
-            return 'a malformed entry altered the preamble read before it'
+        # entries (keys, types, fields, persons) and preamble read BEFORE the malformed entry: unchanged, in every mode
+        for mode, fa, ff in (('capture', a, full), ('non-strict', a_ns, full_ns), ('strict', a, full_st)):
+            if ff[0] != 0 or fa[1][2]:      # (the text before must itself read without problems: it ends between commands)
+                continue
+            xa, xf = strip_dirty(fa[1][0]), strip_dirty(ff[1][0])
+            if xf[:len(xa)] != xa:
+                return 'a malformed entry altered the entries read before it (%s mode)' % mode
+            if [p[1] for p in ff[1][1]][:len(fa[1][1])] != [p[1] for p in fa[1][1]]:
+                return 'a malformed entry altered the preamble read before it (%s mode)' % mode
+        if strip_dirty(full_ns[1][0]) != ef:
+            return 'capture and non-strict modes yield different databases'
         # the line of every syntax error of the corrupted entry lies within the entry (or where reading resynchronised)
         lo = n_lines(A)
         hi = n_lines(A + bad + C)
@@ -305,8 +329,20 @@ def oracle(fn, arg, out):
             after = eac[len(ea):]
             if eac[:len(ea)] != ea:
                 return None
-            if after and ef[len(ef) - len(after):] != after:
+            mid = ef[len(ea):]
+            surv = [e for e in after if e in mid]
+            lost = [e for e in after if e not in mid]
+            if surv and mid[len(mid) - len(surv):] != surv:
                 return 'a malformed entry with balanced braces and quotes altered the entries after it'
+            head = mid[:len(mid) - len(surv)]
+            n_data = len([e for e in full[1][2] if e[1] == -1])
+            if len(lost) > n_data:
+                return 'a malformed entry with balanced braces and quotes altered the entries after it'
+            for e in lost:
+                # the only legitimate loss: the corrupted text itself introduced an entry with the same key
+                # (first key wins -- fixed by C01 -- and the later one is REPORTED as repeated: one data error each)
+                if not any(S(m[0]).lower() == S(e[0]).lower() for m in head):
+                    return 'a malformed entry with balanced braces and quotes altered the entries after it'
         return None
     return None
 
